@@ -297,6 +297,15 @@ func isPointer(T types.Type) bool {
 	return ok
 }
 
+// isRef: values that are references to allocated objects (pointers, maps, channels)
+func isRef(T types.Type) bool {
+	switch under(T).(type) {
+	case *types.Pointer, *types.Map, *types.Chan:
+		return true
+	}
+	return false
+}
+
 func isInterface(T types.Type) bool {
 	if T == nil {
 		return false
